@@ -13,7 +13,7 @@ META = {
     "C05": ("other", "verification loop shape and raise classes on all paths of the loader, verify-before-trust dominance, who-may-call the XML parsers, load-before-write in every command, no enclosing try", "collision resistance of c4; chain files produced by the tool", "CFG path conditions + typestate + who-may-call", "4 C05"),
     "C06": ("other", "who-may-write, fresh name = latest+1, name format accepted by the loader (regex structure parsed, sample names with hostile folder names, the skip filter evaluated on generated names), chain rewrite = all old entries in order + one new, hashed after closed", "byte stability at run time not executed", "who-may-call + provenance + regex inclusion + typestate", "4 C06"),
     "C07": ("other", "argument wiring of the directory-hash context (content vs structure, name binding), sort-then-decode-then-hash, per-format key consistency, children before parents, sibling wiring in create / verify -dh", "numeric equality with an independent evaluation is not decided", "provenance (argument wiring) + CFG order + sibling diff", "4 C07"),
-    "C08": ("other", "component-wise exact-key routing, bottom-up commit, reference hashed after the child file is closed, write condition, child root hash copied up in all formats", "exactly-one-history per file on concrete layouts is not executed", "CFG order + typestate + provenance", "4 C08"),
+    "C08": ("other", "component-wise exact-key routing, lookups of recorded entries on the routed history with the routed path, every referenced child generation written into the parent manifest, bottom-up commit, reference hashed after the child file is closed, write condition, child root hash copied up in all formats", "exactly-one-history per file on concrete layouts is not executed", "CFG order + typestate + provenance", "4 C08"),
     "C09": ("other", "result-use consistency and the 4-row decision table of the comparison helper against what each caller books as failure, writer-optional fields guarded before dereference, key-domain agreement of per-format lookups, failure bookkeeping reaches the exit decision, the list of formats that all have to fail for exit 12 holds recorded formats only", "that a changed tree yields different directory hashes (C07 + collision resistance)", "result-use consistency + three-valued decision-table evaluation + nullability + key-domain", "4 C09"),
     "C10": ("other", "writer field table equals reader field table, all variable text goes through the escaping builder, path conversion paired both ways, the reader attaches every container it parsed to the hash list under parser-state tests only (attach table, push/pop pairing), hash dates keep their offset, reader conversions are followed through helpers (a fixed strptime layout is lossy), nothing edits the serialised XML line by line on its way to the file", "lxml escaping/iterparse trusted; values not executed", "emission grammar vs reader decision table + taint", "4 C10"),
     "C11": ("other", "language of element sequences the writers can emit is included in the XSD content models (every helper that writes to the document is modelled or the check fails closed; a truth test on a lazy iterator is not a non-emptiness guard); attribute sets; enumerations; multiplicity", "libxml2 is the reference validator; e-mail pattern and lexical dates for all clock values not decided", "emission grammar included in XSD automata", "4 C11"),
@@ -22,7 +22,7 @@ META = {
     "C14": ("proof", "absence of reachable file-system-mutating call sites per read-only command and path provenance of every mutating site of create/flatten: a sound over-approximation given the trusted base", "effects table of external callables; ast call resolution with CHA and unknown-receiver over-approximation; CPython import semantics", "call-graph reachability over an effects table + path provenance", "4 C14"),
     "C15": ("other", "no durable history file is opened truncating under its final name (write temp, close, atomic replace outside any cleanup block, temp name ignored by the loader and re-creatable); validation before first write; manifest before chain; the loader parses only *.mhl entries and never raises on a stray / not-yet-chained manifest; no raise in the loader is conditioned on the existence of a file the commit creates only transiently (lock, temporary) or on `folder made by the commit exists, file published into it later is missing` (1 known finding: first create of a history)", "the full crash-point quantifier (OS write reordering, fsync, directory durability) is not decided", "typestate + provenance", "4 C15"),
     "C16": ("other", "UTC offset is derived from the date it is attached to; no tzinfo is dropped or swapped without conversion; date formatters are not memoised; numeric attributes guarded by `is not None`; size/mtime from the hashed path; UTC file name; the reader's size conversion evaluated for \"0\" and \"7\"", "tz database rules; sizes changing during hashing", "provenance/dependency + emission-guard typing", "4 C16"),
-    "C17": ("other", "previous path persisted/parsed/indexed under both names; one rename rewrite in three commands; verify follows the previous path; previous_path only under digest equality and -dr, and always recorded when the match takes the old path out of the missing set", "pairing for concrete sets of simultaneous renames not executed", "sibling diff + guard extraction", "4 C17"),
+    "C17": ("other", "previous path persisted/parsed/indexed under both names; one rename rewrite in three commands; verify follows the previous path; previous_path only under digest equality and -dr, and always recorded when the match takes the old path out of the missing set; the rename map is composed across generations (chains A->B->C); the matching loop is not left on a mismatch", "pairing for concrete sets of simultaneous renames not executed", "sibling diff + guard extraction", "4 C17"),
     "C18": ("other", "flatten visits every generation in order; the carry-over decision table (directory / failed / path known / format known) evaluated three-valued over the loop body equals the specification; argument wiring incl. action; commits only into the destination; verify -pl dispatch and option wiring to the packing-list loader; verify never counts a traversed folder as a new file against a set that is not ancestor-closed (a packing list has no directory records); nothing reachable mutates the source history; between load and commit flatten asks the file system nothing about recorded paths", "equality with an independently computed summary not executed", "loop coverage + guard extraction + provenance", "4 C18"),
     "C19": ("other", "listing loops exhaustive and unsliced and not fed from a single-use iterator bound outside the loop, each printed field from the matching attribute of the matching loop variable, recursion over all children, no history => exit 30", "exact output text not decided", "loop coverage + f-string wiring", "4 C19"),
     "C20": ("other", "daemon before start on every path, constant bound on every join, network only inside run(), the checker thread writes nothing to stdout/stderr, checker state read only in result callbacks after the join, callback cannot raise/exit, no __exit__ / try-except around command invocation can swallow the command's exit, the main-thread side of the checker takes no lock the thread holds across a network call and waits on nothing unbounded, both CLI groups agree", "interleavings are not explored; daemon-thread shutdown semantics of CPython trusted", "typestate + who-may-call + constant bound + sibling diff", "4 C20"),
